@@ -63,6 +63,33 @@ class SlotChild(SlotBean):
     def __eq__(self, other):
         return SlotBean.__eq__(self, other) and self.more == other.more
 
+class PrivParent(object):
+    __slots__ = ("__secret", "shared")
+    def __init__(self):
+        self.__secret = [1, 2]
+        self.shared = "s"
+    def __eq__(self, other):
+        return type(other) is type(self) and other._PrivParent__secret == self._PrivParent__secret and \
+            other.shared == self.shared and getattr(other, "__dict__", {}) == getattr(self, "__dict__", {}) and \
+            getattr(other, "own", None) == getattr(self, "own", None)
+
+class PrivChildDict(PrivParent):
+    """inherits the private slot, adds attribute-dict fields"""
+    def __init__(self):
+        PrivParent.__init__(self)
+        self.extra = {"k": 1}
+
+class PrivChildSlots(PrivParent):
+    """inherits the private slot, declares its own slots (one private too)"""
+    __slots__ = ("own", "__mine")
+    def __init__(self):
+        PrivParent.__init__(self)
+        self.own = 7
+        self.__mine = None
+
+class PrivGrandChild(PrivChildSlots):
+    pass
+
 class Custom(object):
     def __init__(self, a=0, b=0):
         self.a, self.b = a, b
@@ -221,7 +248,8 @@ def run(tier="quick", seed=0, pid=None):
                     if repr(arg) != repr(keep):
                         fail("C15", "argument_unchanged", {"value": repr(keep)}, "load left %r" % (arg,))
     # C07: class shapes, at top level, nested, module-qualified and through the local class table
-    shapes = ["DictBean", "SlotBean", "MangledSlotBean", "Child1", "Child2", "Child3", "SlotChild", "Custom", "CustomKw"]
+    shapes = ["DictBean", "SlotBean", "MangledSlotBean", "Child1", "Child2", "Child3", "SlotChild", "Custom", "CustomKw",
+              "PrivParent", "PrivChildDict", "PrivChildSlots", "PrivGrandChild"]
     for name in shapes:
         cls = getattr(m, name)
         for where in ("top", "list", "dict", "field-list", "field-dict"):
@@ -374,6 +402,6 @@ def run(tier="quick", seed=0, pid=None):
     if pid is not None:
         failures = [f for f in failures if f.get("property") == pid]
     return {"kind": "real jsonclass.dump/load on generated class shapes, plain nestings, handler tables and hostile names (bounded)",
-            "bound": "9 class shapes x 5 positions x {module path, local class table}; %d plain values; handler/ignore cases; "
+            "bound": "13 class shapes x 5 positions x {module path, local class table}; %d plain values; handler/ignore cases; "
                      "class names of length <= 3 over a 13-character alphabet (sampled in the quick tier)" % len(plain_values(random.Random(seed), tier)),
             "evaluations": n, "failures": failures[:60], "failures_total": total}
